@@ -4,6 +4,7 @@ package wsutil
 
 import (
 	"github.com/gobwas/ws"
+	"io"
 )
 
 // C06_op_step (inductive step): one arbitrary operation from an arbitrary valid writer state.
@@ -28,7 +29,11 @@ func C06_op_step() {
 	}
 	w.dirty = vBool("dirty")
 	vAssume(vImplies(w.fseq > 0, w.dirty))
-	vAssume(vImplies(n > 0, w.dirty)) // bytes get into the buffer only through Write/ReadFrom, which mark it dirty
+	// bytes get into the buffer only through Write/ReadFrom, which mark the writer dirty.  (Before
+	// fix 53fef12 this was NOT an invariant: ReadFrom stopping on a source error left its bytes
+	// buffered, or its fragments sent, with the flag clear — defect F19.  The post-state assertions
+	// step.invariant_* below keep it inductive, now also for failing and stalling sources.)
+	vAssume(vImplies(n > 0, w.dirty))
 	w.noFlush = vBool("noflush")
 	fseq0, dirty0, noFlush := w.fseq, w.dirty, w.noFlush
 	size0 := w.Size()
@@ -71,14 +76,44 @@ func C06_op_step() {
 		vAssert(w.dirty, "step.write_marks_dirty")
 	case 1: // ReadFrom
 		data := vBytes("p", pickLen())
-		src := vNewSrc(data, vChoose("mode", 2), "chunk")
-		k, err := w.ReadFrom(&src)
-		vAssert(vAnd(err == nil, int(k) == len(data)), "step.readfrom_accepts_all")
+		var k int64
+		var err error
+		srcKind := vChoose("srckind", 3)
+		switch srcKind {
+		case 0: // ends with io.EOF
+			src := vNewSrc(data, vChoose("mode", 2), "chunk")
+			k, err = w.ReadFrom(&src)
+			vAssert(vAnd(err == nil, int(k) == len(data)), "step.readfrom_accepts_all")
+			vAssert(w.dirty, "step.readfrom_marks_dirty")
+		case 1: // the source fails (non-EOF) after its data, reported separately or with the last bytes
+			src := &vCutSrc{data: data, cut: len(data), useErr: true, one: vChoose("mode", 2) == 1, withData: vChoose("withdata", 2) == 1}
+			k, err = w.ReadFrom(src)
+			vAssert(vAnd(err == vErrSrc, int(k) == len(data)), "step.readfrom_reports_source_error_and_count")
+		case 2: // the source stalls: (0, nil) for ever
+			src := &vStallSrc{data: data}
+			k, err = w.ReadFrom(src)
+			vAssert(vAnd(err == io.ErrNoProgress, int(k) == len(data)), "step.readfrom_reports_no_progress_and_count")
+		}
 		accepted = data
 		if noFlush {
 			vAssert(len(dst.calls) == 0, "step.noflush_readfrom_emits_nothing")
 		}
-		vAssert(w.dirty, "step.readfrom_marks_dirty")
+		if srcKind != 0 {
+			// what ReadFrom reported as accepted goes out with the next final flush
+			dst.calls = nil
+			before := len(dst.all)
+			vAssert(vImplies(len(data) > 0, w.dirty), "step.readfrom_with_data_marks_dirty")
+			vAssert(vImplies(w.fseq > 0, w.dirty), "step.invariant_fseq_dirty")
+			vAssert(vImplies(w.n > 0, w.dirty), "step.invariant_n_dirty")
+			vAssert(w.Flush() == nil, "step.flush_after_failed_readfrom_ok")
+			if len(data) > 0 || dirty0 {
+				// the message the accepted bytes belong to is terminated
+				fs, ok := vParseFrames(dst.all)
+				vAssert(vAnd(ok, vAnd(len(fs) >= 1, fs[len(fs)-1].fin)), "step.flush_after_failed_readfrom_sends_final_frame")
+			}
+			_ = before
+			isFlush = true
+		}
 	case 2: // WriteThrough
 		p := vBytes("p", pickLen())
 		keep := append([]byte{}, p...)
@@ -102,7 +137,7 @@ func C06_op_step() {
 		isFlush = true
 		err := w.Flush()
 		vAssert(err == nil, "step.flush_ok")
-		if !dirty0 {
+		if !dirty0 && n == 0 {
 			vAssert(len(dst.calls) == 0, "step.flush_with_nothing_written_emits_nothing")
 		} else {
 			fs, ok := vParseFrames(dst.all)
